@@ -190,11 +190,7 @@ func (obj *Package) Unuse(pkg *Package) {
 	}
 	if obj != pkg {
 		obj.mu.Lock()
-		pkg.mu.Lock()
-		defer func() {
-			obj.mu.Unlock()
-			pkg.mu.Unlock()
-		}()
+		defer obj.mu.Unlock()
 		found := false
 		for i, p := range obj.Uses {
 			if pkg.Name == p.Name {
@@ -206,41 +202,32 @@ func (obj *Package) Unuse(pkg *Package) {
 		if !found {
 			return // not used: nothing to take away
 		}
+		pkg.mu.Lock()
 		for i, p := range pkg.Users {
 			if obj.Name == p.Name {
 				pkg.Users = append(pkg.Users[:i], pkg.Users[i+1:]...)
 				break
 			}
 		}
-		// Rebuild to make sure use tree branches are removed as well: what
-		// the remaining used packages export, then what the package itself
-		// defines or imports (which wins).
-		vars := map[string]*VarVal{}
-		funcs := map[string]*FuncInfo{}
-		classes := map[string]Class{}
-		for _, p := range obj.Uses {
-			for name, vv := range p.vars {
-				if vv.Export {
-					vars[name] = vv
-				}
-			}
-			for name, fi := range p.funcs {
-				if fi.Export {
-					funcs[name] = fi
-				}
-			}
-			for name, c := range p.classes {
-				classes[name] = c
-			}
-		}
+		pkg.mu.Unlock()
+		// Make sure use tree branches are removed as well. What the package
+		// inherited is inherited again from the remaining used packages, by
+		// the package and by the packages that inherited from it. What the
+		// package itself defines or imports stays.
 		for name, vv := range obj.vars {
-			if vv.Pkg == obj || obj.Imports[name] != nil {
-				vars[name] = vv
+			if vv.Pkg != obj && obj.Imports[name] == nil {
+				obj.withdrawVar(name, vv, true)
 			}
 		}
 		for name, fi := range obj.funcs {
-			if fi.Pkg == obj || obj.Imports[name] != nil {
-				funcs[name] = fi
+			if fi.Pkg != obj && obj.Imports[name] == nil {
+				obj.withdrawFunc(name, fi, true)
+			}
+		}
+		classes := map[string]Class{}
+		for _, p := range obj.Uses {
+			for name, c := range p.classes {
+				classes[name] = c
 			}
 		}
 		for name, c := range obj.classes {
@@ -248,7 +235,123 @@ func (obj *Package) Unuse(pkg *Package) {
 				classes[name] = c
 			}
 		}
-		obj.vars, obj.funcs, obj.classes = vars, funcs, classes
+		obj.classes = classes
+	}
+}
+
+// inheritors returns the packages that inherited a variable or function from
+// obj, directly or through other users. The held function should return true
+// if a package holds that variable or function without being the package it
+// is interned in. If self is true obj is the first package in the list.
+func (obj *Package) inheritors(self bool, held func(p *Package) bool) (list []*Package) {
+	if self {
+		list = append(list, obj)
+	}
+	seen := map[*Package]bool{obj: true}
+	var walk func(p *Package)
+	walk = func(p *Package) {
+		for _, u := range p.Users {
+			if !seen[u] && held(u) {
+				seen[u] = true
+				list = append(list, u)
+				walk(u)
+			}
+		}
+	}
+	walk(obj)
+	return
+}
+
+// withdrawVar takes the variable vv away from the packages that inherited it
+// under name from obj, directly or through other users, as obj no longer
+// provides it. Those packages, and obj if self is true, inherit what the
+// packages they use still export under name instead with a package used later
+// taking precedence. The obj mutex must be locked by the caller.
+func (obj *Package) withdrawVar(name string, vv *VarVal, self bool) {
+	list := obj.inheritors(self, func(p *Package) bool { return p.vars[name] == vv && vv.Pkg != p })
+	// The replacements are determined before any table is changed as a
+	// package on the list can only inherit from another package on the list
+	// what that package will have.
+	fresh := map[*Package]*VarVal{}
+	for _, p := range list {
+		fresh[p] = nil
+	}
+	for changed := true; changed; {
+		changed = false
+		for _, p := range list {
+			if fresh[p] != nil {
+				continue
+			}
+			for i := len(p.Uses) - 1; 0 <= i; i-- {
+				xv, listed := fresh[p.Uses[i]]
+				if !listed {
+					xv = p.Uses[i].vars[name]
+				}
+				if xv != nil && xv.Export {
+					fresh[p] = xv
+					changed = true
+					break
+				}
+			}
+		}
+	}
+	for _, p := range list {
+		if p != obj {
+			p.mu.Lock()
+		}
+		if xv := fresh[p]; xv != nil {
+			p.vars[name] = xv
+		} else {
+			delete(p.vars, name)
+		}
+		if p != obj {
+			p.mu.Unlock()
+		}
+	}
+}
+
+// withdrawFunc takes the function fi away from the packages that inherited it
+// under name from obj, directly or through other users, as obj no longer
+// provides it. Those packages, and obj if self is true, inherit what the
+// packages they use still export under name instead with a package used later
+// taking precedence. The obj mutex must be locked by the caller.
+func (obj *Package) withdrawFunc(name string, fi *FuncInfo, self bool) {
+	list := obj.inheritors(self, func(p *Package) bool { return p.funcs[name] == fi && fi.Pkg != p })
+	fresh := map[*Package]*FuncInfo{}
+	for _, p := range list {
+		fresh[p] = nil
+	}
+	for changed := true; changed; {
+		changed = false
+		for _, p := range list {
+			if fresh[p] != nil {
+				continue
+			}
+			for i := len(p.Uses) - 1; 0 <= i; i-- {
+				xf, listed := fresh[p.Uses[i]]
+				if !listed {
+					xf = p.Uses[i].funcs[name]
+				}
+				if xf != nil && xf.Export {
+					fresh[p] = xf
+					changed = true
+					break
+				}
+			}
+		}
+	}
+	for _, p := range list {
+		if p != obj {
+			p.mu.Lock()
+		}
+		if xf := fresh[p]; xf != nil {
+			p.funcs[name] = xf
+		} else {
+			delete(p.funcs, name)
+		}
+		if p != obj {
+			p.mu.Unlock()
+		}
 	}
 }
 
@@ -405,10 +508,8 @@ func (obj *Package) Remove(name string) (removed bool) {
 	if vv, has := obj.vars[name]; has {
 		delete(obj.vars, name)
 		removed = true
-		for _, u := range obj.Users {
-			if u.vars[name] == vv && vv.Pkg == obj {
-				delete(u.vars, name)
-			}
+		if vv.Pkg == obj {
+			obj.withdrawVar(name, vv, false)
 		}
 	}
 	delete(obj.classes, name)
@@ -520,25 +621,13 @@ func (obj *Package) Unexport(name string) {
 	if obj.funcs != nil {
 		if fi := obj.funcs[name]; fi != nil && fi.Pkg == obj {
 			fi.Export = false
-			for _, u := range obj.Users {
-				u.mu.Lock()
-				if u.funcs[name] == fi {
-					delete(u.funcs, name)
-				}
-				u.mu.Unlock()
-			}
+			obj.withdrawFunc(name, fi, false)
 		}
 	}
 	if obj.vars != nil {
 		if vv := obj.vars[name]; vv != nil && vv.Pkg == obj {
 			vv.Export = false
-			for _, u := range obj.Users {
-				u.mu.Lock()
-				if u.vars[name] == vv {
-					delete(u.vars, name)
-				}
-				u.mu.Unlock()
-			}
+			obj.withdrawVar(name, vv, false)
 		}
 	}
 	obj.mu.Unlock()
@@ -550,12 +639,8 @@ func (obj *Package) Undefine(name string) {
 	obj.mu.Lock()
 	if fi := obj.funcs[name]; fi != nil {
 		delete(obj.funcs, name)
-		for _, u := range obj.Users {
-			u.mu.Lock()
-			if u.funcs[name] == fi && fi.Pkg == obj {
-				delete(u.funcs, name)
-			}
-			u.mu.Unlock()
+		if fi.Pkg == obj {
+			obj.withdrawFunc(name, fi, false)
 		}
 	}
 	obj.mu.Unlock()
